@@ -82,6 +82,12 @@ def clientNodesFrom (g : Graph) : Nat → List Node → Option (Outcome (List No
 
 def clientGraph (g : Graph) : Option (Outcome Graph) := clientNodesFrom g 0 g
 
+/-- `ToJ5ClientObject()` of a request body or response body: the client properties of an object
+that is no node of the graph (the `<Method>Request` / `<Method>Response` message, or the clone
+`fillRequest` makes of it) — nothing can refer back to it, so the `flattening` guard starts empty -/
+def clientMessageProps (g : Graph) (props : List Prop') : Option (Outcome (List Prop')) :=
+  expandWith (fun r => clientPropsFuel g (g.length + 1) [] r) [] props
+
 /-- a flattened object field refers to an object of the graph -/
 def Prop'.flatOk (g : Graph) (p : Prop') : Bool :=
   match p.flat, p.field with
